@@ -597,14 +597,15 @@ class modict(odict):
         """
         index = kwa.get('index', -1)
         try:
-            val = super(modict, self).pop(key)
+            val = super(modict, self).__getitem__(key)[index]  # bad index raises before removal
         except KeyError:
             if pa:
                 return pa[0]
             else:
                 raise
 
-        return val[index]
+        super(modict, self).pop(key)
+        return val
 
     def poplist(self, key, *pa):
         """
@@ -631,8 +632,12 @@ class modict(odict):
         If last is True pop in LIFO order.
         If last is False pop in FIFO order.
         """
-        key, val = self.poplistitem(last=last)
-        return (key, val[index])
+        if not self._keys:
+            raise KeyError('Empty modict.')
+        key = self._keys[-1 if last else 0]
+        val = super(modict, self).__getitem__(key)[index]  # bad index raises before removal
+        super(modict, self).pop(key)
+        return (key, val)
 
     def poplistitem(self, last=True):
         """
